@@ -298,8 +298,77 @@ def fstep (h : Heap) (j : Json) : P (Heap × TOut) := do
     pure (h, getFromTree h (← natField j "node") fromRoot (← strListOfJson (← j.getObjVal? "names")))
   | _ => throw ("bad forest step " ++ what)
 
+-- ---------- the Array codec (C02 / C14)
+
+def dimArgOfJson : Json → P DimArg
+  | .null => pure .none
+  | j => do
+    if let some v := optField j "vec" then return .vec (← (← v.getArr?).toList.mapM numOfJson)
+    if let some v := optField j "num" then return .num (← numOfJson v)
+    throw "bad dim arg"
+
+def optStrList (j : Json) (k : String) : P (Option (List String)) :=
+  match optField j k with
+  | some v => do pure (some (← strListOfJson v))
+  | none => pure none
+
+def natListToJson (l : List Nat) : Json := Json.arr (l.map (fun (n : Nat) => (n : Json))).toArray
+
+def arrayValToJson (a : ArrayVal) : Json :=
+  Json.mkObj [("tok", .str a.dataTok), ("shape", natListToJson a.dataShape), ("units", .str a.units),
+    ("stack", a.isStack), ("labels", strListToJson a.labels),
+    ("dims", Json.arr (a.dims.map (fun d => Json.arr (d.map numToJson).toArray)).toArray),
+    ("dunits", strListToJson a.dimUnits), ("dnames", strListToJson a.dimNames),
+    ("rank", (a.rank : Nat)), ("depth", (a.depth : Nat)), ("ashape", natListToJson a.shape)]
+
+def rToJson {α : Type} (f : α → Json) : R α → Json
+  | .ok v => f v
+  | .error e => errToJson e
+
+def arraySetter (a : ArrayVal) (j : Json) : P (R ArrayVal) := do
+  let what ← strField j "set"
+  let n ← natField j "n"
+  match what with
+  | "dim" => pure (setDim realOps a n (← dimArgOfJson ((optField j "dim").getD Json.null))
+      ((optField j "units").bind (fun v => v.getStr?.toOption)) ((optField j "name").bind (fun v => v.getStr?.toOption)))
+  | "units" => pure (setDimUnits a n (← strField j "units"))
+  | "name" => pure (setDimName a n (← strField j "name"))
+  | _ => throw "bad setter"
+
+def handleArray (j : Json) : P Json := do
+  let shape ← (← arrField j "shape").mapM (·.getNat?)
+  let dims ← match optField j "dims" with
+    | some v => do pure (some (← (← v.getArr?).toList.mapM dimArgOfJson))
+    | none => pure none
+  let lab ← match optField j "labels" with
+    | none => pure LabelArg.none
+    | some (.bool true) => pure LabelArg.auto
+    | some v => do pure (LabelArg.given (← strListOfJson v))
+  let ctor := mkArray realOps (← strField j "tok") shape (← strField j "units") dims
+    (← optStrList j "names") (← optStrList j "dunits") lab
+  -- setters, each observed
+  let setters := (optField j "then").bind (fun v => v.getArr?.toOption) |>.getD #[]
+  let (final, outs) ← setters.toList.foldlM (fun (acc : R ArrayVal × List Json) s => do
+    match acc.1 with
+    | .error _ => pure (acc.1, acc.2 ++ [Json.mkObj [("skipped", true)]])
+    | .ok a =>
+      let r ← arraySetter a s
+      match r with
+      | .ok a' => pure (.ok a', acc.2 ++ [arrayValToJson a'])
+      | .error e => pure (.ok a, acc.2 ++ [errToJson e])) (ctor, [])
+  let body := match final with | .ok a => bodyToJson (a.toBody realOps) | .error _ => Json.null
+  let back := match final with
+    | .ok a => rToJson arrayValToJson (ArrayVal.fromBody realOps a.dataShape (a.toBody realOps))
+    | .error _ => Json.null
+  let slices := match final with
+    | .ok a => Json.mkObj (a.labels.map (fun l => (l, match labelIndex a.labels l with | some i => ((i : Nat) : Json) | none => Json.null)))
+    | .error _ => Json.null
+  pure (Json.mkObj [("ctor", rToJson arrayValToJson ctor), ("setters", Json.arr outs.toArray), ("body", body),
+    ("back", back), ("slices", slices)])
+
 def handle (op : String) (j : Json) : P Json := do
   match op with
+  | "array" => handleArray j
   | "forest" =>
     let steps ← arrField j "steps"
     let (_, outs) ← steps.foldlM (fun (acc : Heap × List Json) s => do
